@@ -18,20 +18,23 @@ GThresh == {<<<<>>, <<>>>>, <<<<0>>, <<>>>>, <<<<1>>, <<>>>>, <<<<2>>, <<>>>>, <
             <<<<>>, <<<<2, 4>>>>>>, <<<<>>, <<<<4, 4>>>>>>, <<<<>>, <<<<5, 4>>>>>>, <<<<1>>, <<<<2, 4>>>>>>}
 
 IvCases   == {[kind |-> "iv", a |-> a, b |-> b, abs |-> t[1], rel |-> t[2]] : a \in Intervals, b \in Intervals, t \in Thresh}
-GeomCases == {[kind |-> k, i |-> i, j |-> j, abs |-> t[1], rel |-> t[2]] :
-                 k \in {"time", "freq"}, i \in 1..Len(Cat), j \in 1..Len(Cat), t \in GThresh}
-ClipCases == {[kind |-> "clip", i |-> i, clip |-> cl, m |-> m] :
-                 i \in 1..Len(Cat), cl \in {x \in (0..6) \X (0..6) : x[1] <= x[2]}, m \in -1..2}
+\* prov: how the geometry objects came to be: "fresh" = built by the constructor; "derived" = a DIFFERENT geometry of the
+\* same kind was built and queried first, then model_copy(update={"coordinates": ...}) produced the geometry of the case
+\* (anything memoised on the first object would travel along); the required outcome does not depend on it
+GeomCases == {[kind |-> k, i |-> i, j |-> j, abs |-> t[1], rel |-> t[2], prov |-> p] :
+                 k \in {"time", "freq"}, i \in 1..Len(Cat), j \in 1..Len(Cat), t \in GThresh, p \in {"fresh", "derived"}}
+ClipCases == {[kind |-> "clip", i |-> i, clip |-> cl, m |-> m, prov |-> p] :
+                 i \in 1..Len(Cat), cl \in {x \in (0..6) \X (0..6) : x[1] <= x[2]}, m \in -1..2, p \in {"fresh", "derived"}}
 
 \* the case as the binder sees it (geometries written out)
 Concrete(k) ==
     CASE k.kind = "iv"   -> k
-      [] k.kind \in {"time", "freq"} -> [kind |-> k.kind, g1 |-> Cat[k.i], g2 |-> Cat[k.j], abs |-> k.abs, rel |-> k.rel]
-      [] k.kind = "clip" -> [kind |-> "clip", g |-> Cat[k.i], clip |-> k.clip, m |-> k.m]
+      [] k.kind \in {"time", "freq"} -> [kind |-> k.kind, g1 |-> Cat[k.i], g2 |-> Cat[k.j], abs |-> k.abs, rel |-> k.rel, prov |-> k.prov]
+      [] k.kind = "clip" -> [kind |-> "clip", g |-> Cat[k.i], clip |-> k.clip, m |-> k.m, prov |-> k.prov]
 
 Init == /\ ph = "in" /\ res = "none"
         /\ \/ c \in IvCases
-           \/ c \in {g \in GeomCases : (g.i * Len(Cat) + g.j) % GeomStride = 0}
+           \/ c \in {g \in GeomCases : (g.i * Len(Cat) + g.j + (IF g.prov = "derived" THEN 1 ELSE 0)) % GeomStride = 0}
            \/ c \in ClipCases
 Compute == ph = "in" /\ ph' = "out" /\ res' = Expected(Concrete(c)) /\ c' = c
 Next == Compute
